@@ -69,7 +69,11 @@ def norm_case(scn, case, inv=None):
     o = case['out']
     if o[0] == 'err':
         e = o[1]
-        if e[0] in ('EContract', 'ECode'):
+        if e[0] == 'ECode' and e[1] == 'guard':
+            # WHICH of several erring guards of one state errs first follows the declaration order (C07_guard_error_owner_refuted:
+            # proved of the model, accepted by the property: "the same kind of error at the same step")
+            out = ('err', e[0], e[1])
+        elif e[0] in ('EContract', 'ECode'):
             owner = e[2]
             owner = ('S', f(owner[1])) if owner[0] == 'S' else ('T', trans_record(scn, owner[1], inv) if owner[1] >= 0 else None)
             out = ('err', e[0], e[1], owner, e[3])
